@@ -211,4 +211,135 @@ class FloodSuite(cc.ChanSuite):
         return case["ops"][0][0]
 
 
-SUITES = [TimeSuite(), FloodSuite()]
+
+
+# ------------------------------------------------------------------ SubprocessChannelIO.read: the select loop
+import tbot.machine.channel.subprocess as spmod   # noqa: E402
+import tbot.error as terr                          # noqa: E402
+from vlib import coq as _coq                        # noqa: E402
+from vlib.framework import Suite as _Suite          # noqa: E402
+
+SUB_UNIT = 5120.0     # time unit of coq/SubIO.v: 1/5120 s (0.3 s = 1536 units)
+
+
+class _World:
+    """scripted world for one SubprocessChannelIO.read call: readable at `ready`, process exits at `dies` (seconds)"""
+
+    def __init__(self, now, ready, dies):
+        self.t = now
+        self.ready = ready
+        self.dies = dies
+        self.selects = 0
+
+    # time module
+    def monotonic(self):
+        return self.t
+
+    # select module
+    def select(self, r, w, x, timeout=None):
+        self.selects += 1
+        if self.selects > 200000:
+            raise cc.Blocked()
+        if self.ready is not None and self.ready <= self.t + timeout:
+            self.t = max(self.t, self.ready)
+            return (list(r), [], [])
+        self.t = self.t + timeout
+        return ([], [], [])
+
+    # os module
+    def read(self, fd, n):
+        if self.ready is not None and self.ready <= self.t:
+            return b"x"
+        raise BlockingIOError()
+
+    # process object
+    def poll(self):
+        return None
+
+    @property
+    def returncode(self):
+        return 0 if (self.dies is not None and self.dies <= self.t) else None
+
+
+class SubIOSuite(_Suite):
+    name = "subio"
+    imports = ["SubIO"]
+    model_fn = "subio_model"
+    shard = 500
+
+    def run(self, case):
+        u = lambda x: None if x is None else x / 1024.0       # noqa: E731  (the case is in 1/1024 s, dyadic)
+        w = _World(u(case["now"]), u(case["ready"]), u(case["dies"]))
+        io = object.__new__(spmod.SubprocessChannelIO)
+        io.pty_master = 99
+        io.p = w
+        saved = (spmod.select, spmod.os, spmod.time, spmod.channel._debug_log)
+        spmod.select, spmod.os, spmod.time = w, w, w
+        spmod.channel._debug_log = lambda self_, data, is_write=False: data
+        try:
+            try:
+                io.read(7, u(case["timeout"]))
+                kind = 0
+            except TimeoutError:
+                kind = 1
+            except terr.ChannelClosedError:
+                kind = 2 if not (w.dies is not None and w.dies <= u(case["now"])) else 4
+            except cc.Blocked:
+                return [9]
+        finally:
+            spmod.select, spmod.os, spmod.time, spmod.channel._debug_log = saved
+        return [kind, round(w.t * SUB_UNIT)]
+
+    def coq_input(self, case):
+        f = lambda x: _coq.opt(lambda v: _coq.z(5 * v), x, "Z")     # noqa: E731
+        return f"({f(case['timeout'])}, {_coq.z(5 * case['now'])}, {f(case['ready'])}, {f(case['dies'])})"
+
+    def oracle(self, case, obs):
+        # C06 on the transport: never later than T, never TimeoutError before T, immediately when readable
+        fails = []
+        T, now, ready, dies = case["timeout"], case["now"], case["ready"], case["dies"]
+        if obs == [9]:
+            if T is not None:
+                fails.append(f"SubprocessChannelIO.read(timeout={T / 1024}s) never returned")
+            return fails
+        kind, t5 = obs
+        t = t5 / 5.0
+        closed0 = dies is not None and dies <= now
+        if T is not None and not closed0:
+            if t > now + T + 1e-6:
+                fails.append(f"read(timeout={T / 1024:.4f}s) ended {(t - now) / 1024:.4f}s after the call")
+            if kind == 1 and t < now + T - 1e-6:
+                fails.append(f"TimeoutError {(t - now) / 1024:.4f}s after the call, before the timeout {T / 1024:.4f}s")
+            if kind == 1 and ready is not None and ready < now + T and (dies is None or dies > ready):
+                fails.append(f"TimeoutError although data became readable {(ready - now) / 1024:.4f}s after the call (timeout {T / 1024:.4f}s)")
+        if T is None and kind == 1:
+            fails.append("TimeoutError without a timeout")
+        if kind == 0 and ready is not None and not closed0 and abs(t - max(now, ready)) > 1e-6:
+            fails.append(f"data readable at {ready / 1024:.4f}s, read returned at {t / 1024:.4f}s")
+        return fails
+
+    def nontrivial(self, case, obs):
+        return case["timeout"] is not None or case["ready"] is not None
+
+    def klass(self, case, obs):
+        return str(obs[0])
+
+    def gen(self, tier, rng):
+        ts = [None, 0, 1, 100, 307, 308, 512, 1024, 1536, 3000, 10240]
+        for T in ts:
+            for ready in [None, 0, 1, 306, 307, 308, 500, 1024, 2999, 3000, 3001, 20000]:
+                for dies in [None, 0, 200, 1000, 5000]:
+                    if T is None and ready is None and dies is None:
+                        continue
+                    yield {"timeout": T, "now": 0, "ready": ready, "dies": dies}
+        for _ in range(1500 if tier == "quick" else 15000):
+            T = rng.choice([None, rng.randint(0, 5000), rng.randint(0, 400)])
+            ready = rng.choice([None, rng.randint(0, 6000), rng.randint(0, 400)])
+            dies = rng.choice([None, None, rng.randint(0, 6000)])
+            now = rng.choice([0, 0, rng.randint(0, 100000)])
+            if T is None and ready is None and dies is None:
+                ready = 17
+            yield {"timeout": T, "now": now, "ready": None if ready is None else now + ready, "dies": None if dies is None else now + dies}
+
+
+SUITES = [TimeSuite(), FloodSuite(), SubIOSuite()]
